@@ -1,3 +1,311 @@
 package main
 
-func runCheck(args []string) {}
+// `govc check`: decide one property on /repo's current working tree, write the evidence file,
+// print VIOLATION / KNOWN-FINDING lines, exit 0/1.
+
+import (
+	"encoding/json"
+	"flag"
+	"fmt"
+	"os"
+	"path/filepath"
+	"regexp"
+	"sort"
+	"strings"
+	"time"
+)
+
+type KnownFinding struct {
+	Property   string `json:"property"`
+	Obligation string `json:"obligation"` // regexp on the obligation name
+	What       string `json:"what"`
+	Status     string `json:"status"` // "open" or "fixed"
+	Commit     string `json:"commit,omitempty"`
+}
+
+type PropSpec struct {
+	ID          string   `json:"id"`
+	Extra       []string `json:"extra_checks"` // names of non-SMT analyses (frame scans)
+	Assumptions []string `json:"assumptions"`
+	NotCovered  []string `json:"not_covered"`
+	Bounded     []string `json:"bounded"`
+}
+
+func runCheck(args []string) {
+	fs := flag.NewFlagSet("check", flag.ExitOnError)
+	repo := fs.String("repo", "/repo", "repository root")
+	prop := fs.String("prop", "", "property id")
+	tier := fs.String("tier", "quick", "quick|thorough")
+	verif := fs.String("verif", "/verif", "verif root")
+	fs.Parse(args)
+	if *prop == "" {
+		fmt.Fprintln(os.Stderr, "need -prop")
+		os.Exit(2)
+	}
+	if t := os.Getenv("VERIF_TIER"); t != "" && *tier == "" {
+		*tier = t
+	}
+	seed := 0
+	fmt.Sscanf(os.Getenv("VERIF_SEED"), "%d", &seed)
+	t0 := time.Now()
+	quick, full := 4*time.Second, 30*time.Second
+	if *tier == "thorough" {
+		quick, full = 10*time.Second, 180*time.Second
+	}
+	evPath := filepath.Join(*verif, "evidence", *prop+".json")
+	os.MkdirAll(filepath.Dir(evPath), 0o755)
+	replayDir := filepath.Join(*verif, "replays", *prop)
+	os.RemoveAll(replayDir)
+	os.MkdirAll(replayDir, 0o755)
+
+	var known []KnownFinding
+	if data, err := os.ReadFile(filepath.Join(*verif, "known_findings.json")); err == nil {
+		json.Unmarshal(data, &known)
+	}
+	specs := map[string]*PropSpec{}
+	if data, err := os.ReadFile(filepath.Join(*verif, "propspecs.json")); err == nil {
+		var list []*PropSpec
+		if err := json.Unmarshal(data, &list); err != nil {
+			fmt.Fprintln(os.Stderr, "propspecs.json:", err)
+			os.Exit(2)
+		}
+		for _, p := range list {
+			specs[p.ID] = p
+		}
+	}
+	ps := specs[*prop]
+	if ps == nil {
+		ps = &PropSpec{ID: *prop}
+	}
+
+	violations := 0
+	report := func(name, why, replay string, noInput bool) {
+		violations++
+		line := fmt.Sprintf("VIOLATION property=%s replay=%s", *prop, replay)
+		if noInput {
+			line += " obligation=" + name + " no-failing-input-found"
+		} else {
+			line += " obligation=" + name
+		}
+		fmt.Println(line)
+		_ = why
+	}
+
+	e, err := LoadEngine(*repo)
+	if err != nil {
+		// the tree does not load (does not compile): nothing can be claimed
+		rp := filepath.Join(replayDir, "load-failure.json")
+		writeJSON(rp, map[string]interface{}{"obligation": "load", "error": err.Error()})
+		report("load", err.Error(), rp, true)
+		writeEvidence(evPath, *prop, *tier, seed, nil, nil, ps, time.Since(t0).Seconds(), violations, nil, nil)
+		os.Exit(1)
+	}
+	work := filepath.Join(*verif, "work", "smt-"+*prop)
+	os.RemoveAll(work)
+	results := e.RunContracts(func(c *Contract) bool {
+		if c.Kind == "lemma" && *tier != "thorough" && c.Opts["tier"] == "thorough" {
+			return false
+		}
+		return hasProp(c, *prop)
+	}, work, quick, full)
+
+	// extra analyses (frame scans etc.)
+	var extraObs []*Obligation
+	for _, x := range ps.Extra {
+		extraObs = append(extraObs, e.runExtra(x, *prop)...)
+	}
+	if len(extraObs) > 0 {
+		results = append(results, &FuncResult{Name: "static frame analysis", Obligations: extraObs})
+	}
+
+	isKnown := func(name string) *KnownFinding {
+		for i := range known {
+			k := &known[i]
+			if k.Property != *prop || k.Status == "fixed" {
+				continue
+			}
+			if ok, _ := regexp.MatchString("^"+k.Obligation+"$", name); ok {
+				return k
+			}
+		}
+		return nil
+	}
+	printedKnown := map[string]bool{}
+	var unclaimed []string
+	total, discharged := 0, 0
+	for _, r := range results {
+		if r.Unsupported != "" {
+			name := r.Name + ".translate"
+			if k := isKnown(name); k != nil {
+				if !printedKnown[k.Obligation] {
+					fmt.Printf("KNOWN-FINDING: property=%s %s\n", *prop, k.What)
+					printedKnown[k.Obligation] = true
+				}
+				continue
+			}
+			rp := filepath.Join(replayDir, sanitize(name)+".json")
+			writeJSON(rp, map[string]interface{}{"obligation": name, "function": r.Name, "reason": r.Unsupported,
+				"explanation": "the function under contract could not be verified on this tree (contract does not bind, or the code left the verifiable subset); the obligations it discharged on the unchanged tree are lost"})
+			report(name, r.Unsupported, rp, true)
+			continue
+		}
+		for _, ob := range r.Obligations {
+			total++
+			if ob.Status == "discharged" {
+				discharged++
+				continue
+			}
+			if k := isKnown(ob.Name); k != nil {
+				if !printedKnown[k.Obligation] {
+					fmt.Printf("KNOWN-FINDING: property=%s %s\n", *prop, k.What)
+					printedKnown[k.Obligation] = true
+				}
+				unclaimed = append(unclaimed, ob.Name+" (known finding)")
+				total--
+				continue
+			}
+			rp := filepath.Join(replayDir, sanitize(ob.Name)+".json")
+			rep := map[string]interface{}{"obligation": ob.Name, "kind": ob.Kind, "function": ob.Func, "clause": ob.Clause, "position": ob.Pos,
+				"status": ob.Status, "solver": ob.Solver, "solver_output": ob.Output}
+			confirmed := false
+			if ob.Status == "refuted" && ob.Model != "" {
+				rr := e.replay(ob, filepath.Join(*verif, "work", "replay-"+*prop))
+				rep["replay"] = rr
+				confirmed = rr != nil && rr.Confirmed
+			}
+			writeJSON(rp, rep)
+			report(ob.Name, ob.Status, rp, !confirmed)
+		}
+	}
+	if total == 0 && violations == 0 {
+		// vacuity: a check that generates no obligations proves nothing
+		rp := filepath.Join(replayDir, "no-obligations.json")
+		writeJSON(rp, map[string]interface{}{"obligation": "none", "reason": "no obligation was generated for this property"})
+		report("none", "no obligations", rp, true)
+	}
+	writeEvidence(evPath, *prop, *tier, seed, e, results, ps, time.Since(t0).Seconds(), violations, unclaimed, known)
+	fmt.Printf("property %s: %d obligations, %d discharged, %d violations, %.1fs\n", *prop, total, discharged, violations, time.Since(t0).Seconds())
+	if violations > 0 {
+		os.Exit(1)
+	}
+}
+
+func writeJSON(path string, v interface{}) {
+	data, _ := json.MarshalIndent(v, "", " ")
+	os.WriteFile(path, data, 0o644)
+}
+
+func writeEvidence(path, prop, tier string, seed int, e *Engine, results []*FuncResult, ps *PropSpec, wall float64, violations int, unclaimed []string, known []KnownFinding) {
+	total, discharged := 0, 0
+	byBackend := map[string]int{}
+	byKind := map[string]int{}
+	var solverTime float64
+	var funcs []string
+	var samples []interface{}
+	var unknownCalls []string
+	var axioms []string
+	var notVerified []string
+	seenAx := map[string]bool{}
+	for _, r := range results {
+		if r.Unsupported != "" {
+			notVerified = append(notVerified, r.Name+": "+r.Unsupported)
+			continue
+		}
+		funcs = append(funcs, fmt.Sprintf("%s (%d obligations)", r.Name, len(r.Obligations)))
+		for _, u := range r.UnknownCalls {
+			unknownCalls = append(unknownCalls, r.Name+" -> "+u)
+		}
+		for _, a := range r.Axioms {
+			if !seenAx[a] {
+				seenAx[a] = true
+				axioms = append(axioms, a)
+			}
+		}
+		for i, ob := range r.Obligations {
+			total++
+			solverTime += ob.Time
+			byKind[ob.Kind]++
+			if ob.Status == "discharged" {
+				discharged++
+				byBackend[ob.Solver]++
+			}
+			if i < 3 && len(samples) < 40 {
+				samples = append(samples, map[string]string{"obligation": ob.Name, "kind": ob.Kind, "clause": ob.Clause, "at": ob.Pos, "status": ob.Status, "backend": ob.Solver})
+			}
+		}
+	}
+	for _, u := range unclaimed {
+		if strings.HasSuffix(u, "(known finding)") {
+			total--
+		}
+	}
+	if total < 0 {
+		total = 0
+	}
+	trusted := []string{
+		"govc SSA->SMT-LIB translation (home-made VC generator; cross-checked by replay and the seeded-mutant self-test)",
+		"go/ssa (x/tools v0.29.0) lowering of the Go source",
+		"SMT solvers z3 4.8.12, z3-new 5.1.0, cvc5 1.0 (first definitive answer wins)",
+		"specification functions in the `smt` blocks of /repo/*/verif_contracts*.go (transcribed from the SQLite file-format document)",
+		"slices longer than 2^40 elements and offsets beyond 2^62 are assumed not to exist (model address arithmetic)",
+	}
+	for k, v := range trustedIntrinsics {
+		trusted = append(trusted, "intrinsic "+k+": "+v)
+	}
+	var externs []string
+	if e != nil {
+		for _, c := range e.CS.Order {
+			if c.Kind == "extern" || (c.Trusted && c.Kind != "extern") {
+				externs = append(externs, c.Kind+" "+c.Name+" (assumed contract)")
+			}
+		}
+		for _, a := range axioms {
+			trusted = append(trusted, "axiom set `"+a+"` (definition/well-formedness assumptions, see contracts file)")
+		}
+	}
+	sort.Strings(trusted)
+	sort.Strings(externs)
+	cov := map[string]interface{}{
+		"obligations":           total,
+		"discharged":            discharged,
+		"checker_cmd":           fmt.Sprintf("/verif/bin/govc check -prop %s -tier %s", prop, tier),
+		"trusted_base":          trusted,
+		"samples":               samples,
+		"functions_under_contract": funcs,
+		"obligations_by_kind":   byKind,
+		"discharged_by_backend": byBackend,
+		"solver_time_s":         solverTime,
+		"assumed_external_contracts": externs,
+		"calls_without_contract_havocked": unknownCalls,
+		"not_verified":          notVerified,
+		"unclaimed_obligations": unclaimed,
+		"not_covered":           ps.NotCovered,
+		"bounded":               ps.Bounded,
+		"integer_model":         "every Go integer is a bit-vector of its width (wrap-around, signedness, shifts modelled exactly)",
+	}
+	if len(samples) == 0 {
+		cov["samples"] = []interface{}{"none"}
+	}
+	ev := map[string]interface{}{
+		"property_id": prop,
+		"tier":        tier,
+		"seed":        seed,
+		"level":       "proof",
+		"coverage":    cov,
+		"assumptions": append([]string{}, ps.Assumptions...),
+		"wall_s":      wall,
+		"violations":  violations,
+	}
+	writeJSON(path, ev)
+}
+
+// runExtra dispatches the non-SMT analyses.
+func (e *Engine) runExtra(name, prop string) []*Obligation {
+	switch name {
+	case "global-frame":
+		return e.globalFrameScan(prop)
+	case "immutable-fields":
+		return e.immutableFieldScan(prop)
+	}
+	return []*Obligation{{Name: "extra." + name, Kind: "frame", Status: "undecided", Clause: "unknown analysis " + name}}
+}
